@@ -23,7 +23,7 @@ func init() {
 func runC01(c *Ctx) {
 	p := c.P
 	// clauses this property shares with others (see DESIGN.md section 6a)
-	defer c.ImportRules("C08", "C08.1", "C08.3")
+	defer c.ImportRules("C08", "C08.1", "C08.3", "C08.4")
 	defer c.ImportRules("C09", "C09.1", "C09.7")
 	defer c.ImportRules("C10", "C10.1")
 	defer c.ImportRules("C07", "C07.6")
